@@ -194,7 +194,10 @@ def render_expr(e, lay=None, prec=0):
         # left-assoc: right operand of an intersection must be at operand level if it is an intersection
         a = render_expr(e[1], lay, 1)
         b = render_expr(e[2], lay, 2 if e[2][0] in ('i',) else 1)
-        txt = a + lay.sp(True) + b
+        # a blank is needed only between two literals / a cell number and a literal: `(1:2)-3`, `-1(2:3)`, `2#(3)`, `)#4`
+        # are legal without one
+        need = not (a.endswith(')') or b[0] in '(#')
+        txt = a + lay.sp(need) + b
         if prec > 1:
             txt = '(' + lay.sp() + txt + lay.sp() + ')'
     else:
@@ -330,11 +333,17 @@ def render_surf(s, lay=None):
     return '%s%s %s %s' % (name, tr, s.mn, ' '.join(ps))
 
 
-def wrap_card(line, width=78):
-    """split a long card into continuation lines (5 leading blanks)"""
+def wrap_card(line, width=78, lay=None):
+    """split a long card into continuation lines (5 leading blanks); with a layout, the card may start anywhere in
+    columns 1–5 (one to four leading blanks), which MCNP allows"""
+    if lay is not None and lay.rng is not None and lay.coin(0.15):
+        line = ' ' * lay.rng.randint(1, 4) + line
     if len(line) <= width:
         return line
-    words = [w for w in line.rstrip().split(' ')]
+    lead = len(line) - len(line.lstrip(' '))
+    words = [w for w in line.strip().split(' ')]
+    if lead:
+        words[0] = ' ' * lead + words[0]
     while words and words[-1] == '':
         words.pop()
     lines = []
@@ -359,18 +368,18 @@ def render_deck(d, lay=None, imp_on_cards=None):
         if c.hints.get('raw') is not None:
             out.append(wrap_card(c.hints['raw']))
         else:
-            out.append(wrap_card(render_cell(c, lay, with_imp=imp_on_cards)))
+            out.append(wrap_card(render_cell(c, lay, with_imp=imp_on_cards), lay=lay))
     out.append('')
     for s in d.surfs:
-        out.append(wrap_card(render_surf(s, lay)))
+        out.append(wrap_card(render_surf(s, lay), lay=lay))
     out.append('')
     for num, (m, sp) in d.trs.items():
-        out.append(wrap_card(tr_card(num, m, sp.get('star', False)) if 'raw' not in sp else sp['raw']))
+        out.append(wrap_card(tr_card(num, m, sp.get('star', False)) if 'raw' not in sp else sp['raw'], lay=lay))
     for num, comp in d.mats.items():
-        out.append(wrap_card('m%d %s' % (num, ' '.join(('%s %s' % (z, f)).strip() for z, f in comp))))
+        out.append(wrap_card('m%d %s' % (num, ' '.join(('%s %s' % (z, f)).strip() for z, f in comp)), lay=lay))
     if d.imp_cards:
         for part, toks in d.imp_cards.items():
-            out.append(wrap_card('imp:%s %s' % (part, ' '.join(toks))))
+            out.append(wrap_card('imp:%s %s' % (part, ' '.join(toks)), lay=lay))
     out.extend(d.extra_data)
     out.append('')
     return '\n'.join(out)
